@@ -276,7 +276,7 @@ def policy_suites(fmt, tier):
                                             + [{"ops": [{"o": "set", "s": 0}] * k + [{"o": "pol", "p": {"k": "std"}}], "tail": {"o": "set", "s": 0}} for k in (1, 2)]},
                                   chunks=[[0]], pols=[{"k": "refuse"}, {"k": "dmax", "a": 6}, {"k": "dmax", "a": 12}], slots=1, extra=2), 4),
         # long inputs of small records: must never grow however long they are
-        ("policy-long", suite(fmt, rnd(q(tier, 40, 300), maxrec=q(tier, 60, 200), maxfield=3, damage=0), [16, 24, 64], {"fixed": [NEXT, SET0]}, chunks=[[0], [5]], pols=[{"k": "plus", "a": 1}],
+        ("policy-long", suite(fmt, rnd(q(tier, 40, 150), maxrec=q(tier, 60, 120), maxfield=3, damage=0), [16, 24, 64], {"fixed": [NEXT, SET0]}, chunks=[[0], [5]], pols=[{"k": "plus", "a": 1}],
                               slots=1, extra=1), 4),
     ]
 
@@ -318,7 +318,9 @@ def build_jobs(prop, tier):
         fq_in = [[64] + h + [10, 65, 67, 10, 43, 10, 73, 73, 10] for h in heads]
         hs = [("c13-headers-fasta", suite("fasta", {"list": fa_in}, [3, 64], {"fixed": [NEXT, SET0]}, chunks=[[0]], slots=1, extra=0, flags=fl), 2),
               ("c13-headers-fastq", suite("fastq", {"list": fq_in}, [3, 64], {"fixed": [NEXT, SET0]}, chunks=[[0]], slots=1, extra=0, flags=fl), 2)]
-        J.append(ReaderJob("c13", plain_suites("fasta", tier, fl)[1:] + plain_suites("fastq", tier, fl)[1:] + hs))
+        # (owned copies as the two owned-record iterators hand them out)
+        ow = [("owned-iterators-" + f2, suite(f2, rnd(q(tier, 500, 5000), maxrec=4, maxfield=5, damage=10), [3, 8, 64], {"fixed": [ITER, INTO]}, chunks=[[0]], slots=1, extra=1), 2) for f2 in ("fasta", "fastq")]
+        J.append(ReaderJob("c13", plain_suites("fasta", tier, fl)[1:] + plain_suites("fastq", tier, fl)[1:] + hs + ow))
     elif prop == "C14":
         J.append(ReaderJob("c14", fault_suites("fasta", tier) + fault_suites("fastq", tier) + pair_suites("fasta", tier, "C14") + pair_suites("fastq", tier, "C14")))
     elif prop == "C17":
